@@ -45,7 +45,7 @@ def required_counters(tier):
         "typevar.compared": 30,
         "scalar.kept": 20,
         "scalar.dropped": 50,
-        "aliases.compared": 3, "union.of_nested_compared": 30, "any.arraylike_compared": 500, "any.tf_values": 4, "prng_impl.processes": 6,
+        "aliases.compared": 3, "union.of_nested_compared": 30, "any.arraylike_compared": 500, "any.same_class_with_and_without_attributes": 4, "any.tf_values": 4, "prng_impl.processes": 6,
     }
 
 
@@ -423,6 +423,31 @@ def law_any_arraylike(rec):
     except Exception:
         pass
     T = typing.TypeVar("T")
+    # 'array-like' is a property of the VALUE, not of its Python type: objects of one class with and without a
+    # shape / dtype (proxies, lazily filled handles), in both orders
+    for order in ("arraylike-first", "arraylike-last"):
+        P = type("Proxy_" + order.replace("-", "_"), (), {})
+
+        def mkp(full):
+            p = P()
+            if full:
+                p.shape, p.dtype = (2, 3), "float32"
+            return p
+
+        seq = [True, False, True, False] if order == "arraylike-first" else [False, True, False, True]
+        for tname, at in (("Any", typing.Any), ("TypeVar", T)):
+            ann = jaxtyping.Float[at, "a b"]
+            got = []
+            for full in seq:
+                try:
+                    got.append(real.in_block_context(lambda: real.check(mkp(full), ann)))
+                except Exception as e:  # noqa
+                    got.append("exc:" + type(e).__name__)
+            want = ["ok" if full else "no" for full in seq]
+            rec.count("any.same_class_with_and_without_attributes")
+            rec.case(("any-proxy", order, tname), True)
+            if got != want:
+                rec.violation("any-arraylike", {"law": ["any-arraylike", "proxy", order, tname]}, f"Float[{tname}, 'a b'] on objects of ONE class, {order} (with / without shape+dtype {seq}): {got}, expected {want}", mechanism="any-arraylike-decided-per-class-not-per-value")
     for vname, (x, shp) in vals.items():
         for cname, dt_ok in (("Shaped", True), ("Float", True), ("Float32", True), ("Int", False), ("Num", True), ("Bool", False)):
             for spec in ("a b", "a", "", "...", "*v b", "a 3", "a 4", "#a #b", "*v", "2 _"):
